@@ -101,7 +101,21 @@ def q_matches(q, suf):
                 depth -= 1
                 if depth == 0:
                     q0 = q[:i]
-                    return q0 == suf or q0.endswith("::" + suf)
+                    if q0 == suf or q0.endswith("::" + suf):
+                        return True
+                    break
+    if "<" not in suf and "<" in q:
+        # every template argument list removed (a member template of a class template: C<T>::f<U>)
+        out, depth = [], 0
+        for ch in q:
+            if ch == "<":
+                depth += 1
+            elif ch == ">":
+                depth -= 1
+            elif depth == 0:
+                out.append(ch)
+        q1 = "".join(out)
+        return q1 == suf or q1.endswith("::" + suf)
     return False
 
 
